@@ -358,8 +358,8 @@ func c19Source(cs c19Case) (string, bool) {
 }
 
 // c19Word parses the rendered word and checks that the parser read it as the intended segments.
-func c19Word(cs c19Case) (*syntax.Word, bool) {
-	src, ok := c19Source(cs)
+func c19Word(cs *c19Case) (*syntax.Word, bool) {
+	src, ok := c19Source(*cs)
 	if !ok || src == "" {
 		return nil, false
 	}
@@ -387,16 +387,34 @@ func c19Word(cs c19Case) (*syntax.Word, bool) {
 		}
 		want = append(want, s)
 	}
-	if len(w.Parts) != len(want) {
-		return nil, false
-	}
-	for i, wp := range w.Parts {
+	// the parser may cut one unquoted literal into several Lit parts (`a[1]` is "a" + "[1]"): accept
+	// that, and hand the model the segmentation the parser produced
+	var actual []c19Seg
+	k := 0
+	for i := 0; i < len(want); i++ {
 		s := want[i]
-		switch wp := wp.(type) {
+		if k >= len(w.Parts) {
+			return nil, false
+		}
+		switch wp := w.Parts[k].(type) {
 		case *syntax.Lit:
-			if s.kind != 'u' || wp.Value != s.val {
+			if s.kind != 'u' {
 				return nil, false
 			}
+			acc := ""
+			for k < len(w.Parts) && acc != s.val {
+				l, isLit := w.Parts[k].(*syntax.Lit)
+				if !isLit || !strings.HasPrefix(s.val, acc+l.Value) || l.Value == "" {
+					return nil, false
+				}
+				acc += l.Value
+				actual = append(actual, c19Seg{kind: 'u', val: l.Value})
+				k++
+			}
+			if acc != s.val {
+				return nil, false
+			}
+			continue
 		case *syntax.SglQuoted:
 			if s.kind != 's' || wp.Dollar || wp.Value != s.val {
 				return nil, false
@@ -430,7 +448,13 @@ func c19Word(cs c19Case) (*syntax.Word, bool) {
 		default:
 			return nil, false
 		}
+		actual = append(actual, s)
+		k++
 	}
+	if k != len(w.Parts) {
+		return nil, false
+	}
+	cs.segs = actual
 	return w, true
 }
 
@@ -1080,9 +1104,13 @@ func c19(c *Ctx) {
 	debug := os.Getenv("C19_DEBUG") != ""
 	var jobs []c19Job
 	emit := func(cs c19Case, corpus bool) {
-		w, ok := c19Word(cs)
+		w, ok := c19Word(&cs)
 		if !ok {
 			c.Case("unparsed", false, "word-not-as-intended")
+			if debug {
+				src, _ := c19Source(cs)
+				fmt.Printf("UNPARSED %q %s\n", src, c19Tokens(cs))
+			}
 			return
 		}
 		src, _ := c19Source(cs)
